@@ -27,6 +27,17 @@ CHECKS = {
           "DESIGN.md §3-C04"),
 }
 
+CHECKS["C05"] = ("model_checking",
+  "stateless DFS over all thread schedules (iterative preemption bounding) of the real writer/compaction code under a baton scheduler at guarded hook points",
+  "All multisets of 2 (quick) / 2-4 (thorough) thread programs - each thread owns a writer handle and runs new/add/delete/commit/rollback, plus a compaction thread - over three base states are executed on the real Index/IndexWriter code with every schedule up to the stated preemption bound (0,1,2,...). Oracle per schedule: no call fails, no deadlock, final contents (same Index and after reopen) equal the per-handle-queue model replayed in the order the calls passed the writer-lock probe, else in some serial order found by brute force.",
+  "Trusted: sequential consistency at the hook points; the contents model. Lock probes declare no ownership, so removing a real lock() keeps the scheduling points and exposes the race.",
+  "DESIGN.md §3-C05")
+CHECKS["C06"] = ("model_checking",
+  "stateless DFS over all schedules of reader-open/search steps against commit and compaction publish/cleanup steps on the real code",
+  "Reader threads (open, search, search) run against committing writers and a compaction thread under the same baton scheduler; every ordering of the reader's manifest copy / per-segment opens with the commit and compaction stages (segment written, manifest stored, published, old files cleaned) up to the preemption bound is executed. Oracle: Index::reader() and every search return Ok; every result equals exactly one committed state of the explaining serial order; two searches on one reader agree.",
+  "Trusted: sequential consistency at hook points; results are compared with any committed state of the run (not narrowed to the open interval).",
+  "DESIGN.md §3-C06")
+
 NOT_YET = "check not built yet in this session (see DESIGN.md §3 for the planned engine); no verdict is claimed"
 NOT_APPLICABLE = {}
 
